@@ -366,7 +366,7 @@ class PostingCategorizer(Categorizer):
             from_bytes = self._fieldobj.from_bytes
 
             self.values = []
-            self.array = array("i", [dc + 1] * dc)
+            self.array = array("i", [-1] * dc)
 
             btexts = self._fieldobj.sortable_terms(reader, fieldname)
             for i, btext in enumerate(btexts):
@@ -375,6 +375,13 @@ class PostingCategorizer(Categorizer):
                 postings = reader.postings(fieldname, btext)
                 for docid in postings.all_ids():
                     self.array[docid] = i
+
+            # Documents without a value get a key after the last value (a field
+            # can have more values than the index has documents)
+            missing = len(self.values)
+            for docid in xrange(dc):
+                if self.array[docid] < 0:
+                    self.array[docid] = missing
 
             global_searcher._field_caches[fieldname] = (self.values, self.array)
 
@@ -390,10 +397,10 @@ class PostingCategorizer(Categorizer):
         return i
 
     def key_to_name(self, i):
-        if i >= len(self.values):
-            return None
         if self.reverse:
             i = len(self.values) - i
+        if i >= len(self.values):
+            return None
         return self.values[i]
 
 
